@@ -453,6 +453,8 @@ MINI_HOSTS = [
     "firenet.ch", "svc.firenet.ch", "a.svc.firenet.ch", "b.a.svc.firenet.ch", "x.firenet.ch", "a.x.firenet.ch",
     # no rule at all
     "foo.notatld", "notatld",
+    # the suffix text occurs earlier in the host: as a whole label run, as the beginning of a label, twice
+    "a.com.b.com", "x.community.com", "a.co.uk.b.co.uk", "m.iota.io", "com.com", "a.uk.co.uk",
 ]
 
 
